@@ -81,6 +81,12 @@ def judge_case(part, c, obs):
     """-> (violations, conclusive: bool)"""
     fam = part['family']
     vs = []
+    for h in c['hist']:
+        # the engine's start-up tick can run before the store is initialised; that panic is isolated by tokio,
+        # happens before the scenario starts and is outside the given properties: counted, not inconclusive
+        if h.panics and all('fail to get collection' in p for p in h.panics):
+            obs['benign-startup-tick-panics'] += len(h.panics)
+            h.panics = []
     bad = [h for h in c['hist'] if not h.conclusive()]
     if bad:
         for h in bad:
